@@ -100,7 +100,7 @@ def failing_cases(ctx, rng):
 
 
 def random_fail(rng, n, p_num, p_den):
-    """a random fail spec: each key with chance p fails iff input % m == r, m in 1..3 (m = 1: always)"""
+    """a random fail spec: each key with chance p fails iff input % m == r, m in 1..4 (m = 1: always)"""
     out = {}
     for k in range(n):
         if rng.chance(p_num, p_den):
@@ -138,6 +138,10 @@ def run(ctx):
                     for par in ((1, 2) if ctx.tier == "quick" else (1, 2, 3)):
                         cases.append(mk_case(n, deps, list(hist) + [{"op": "run", "keys": list(range(n))}], par))
     nexh = len(cases)
+    # queries that return a fatal error
+    nfail0 = len(cases)
+    fcases, nfcorp = failing_cases(ctx, rng)
+    cases += fcases
     # DAGs on 4 keys x a few history shapes
     for deps in all_dags(4):
         for par in (1, 3):
@@ -148,11 +152,6 @@ def run(ctx):
                                            {"op": "par", "runs": [[0], [1]], "delays_us": [0, 0]},
                                            {"op": "evict", "keys": [2]}, {"op": "run", "keys": [0, 1, 2, 3]}], par,
                                  fail={fk: FAIL_ODD} if par == 3 else None))
-    # queries that return a fatal error
-    nfail0 = len(cases)
-    fcases, nfcorp = failing_cases(ctx, rng)
-    cases += fcases
-    nfail1 = len(cases)
     # Evict / Edit issued WHILE a Run is in flight (it has to wait for the dirty lock; the input changes inside the cleanup of
     # EvictWithCleanup): a gated query of the Run is parked inside Execute, before or after the Resolve call that makes it a
     # dependent of the evicted key; afterwards everything is run again and must be fresh
